@@ -706,6 +706,77 @@ def decide_deep(case, info, res, trace_text, probe_text):
     return problems, cnt
 
 
+# ----------------------------------------------------------------------------- call_lib in tail position
+def build_tail(case, lib):
+    """`call_lib` IMMEDIATELY followed by `ret`, inside a wrapper reached through `chain` functions that each do
+    nothing but `call next; ret`; the module itself ends with `call w0; ret`.  Nothing between the foreign call and
+    the root looks at the result: a raised error must still stop the program with a report."""
+    tp = case["tail"]
+    path, variant, fault = resolve(tp["lib"], lib)
+    func = tp["func"]
+    n = tp["chain"]
+    prog = b""
+    for i in range(n):
+        if i == n - 1:
+            body = [make_instr(val, 0) for val in tp["push"]]
+            body += [(OP["call_lib"], [path if bare_ok(path) else quote_arg(path), func]), (OP["ret"], [])]
+        else:
+            body = [(OP["call"], ["x.mmm#w%d" % (i + 1)]), (OP["ret"], [])]
+        prog += assemble(body, "w%d" % i)
+    module = [(OP["make_str"], [quote_arg(START)]), (OP["printn"], ["*"]), (OP["void"], []),
+              (OP["call"], ["x.mmm#w0"]), (OP["ret"], [])]
+    prog += assemble(module, "__module__")
+    if variant and has_symbol(func, variant):
+        exp = probe_model(func, tp["push"], variant)
+    else:
+        exp = ("fault", fault or "missing_symbol")
+    return prog, {"path": path, "variant": variant, "expect": exp, "func": func, "stack": list(tp["push"])}
+
+
+def decide_tail(case, info, res, trace_text, probe_text):
+    problems = []
+    cnt = {"args_compared": 0, "ffi_L": 0, "ffi_R": 0, "probe_records": 0, "instr_events": 0, "oplen_checks": 0,
+           "results_compared": 0, "prints_compared": 0, "stops_checked": 0, "deep_failing_calls": 0,
+           "deep_max_report_lines": 0}
+    cls = case["class"]
+    events, _trunc = read_trace(trace_text or "")
+    cnt["instr_events"] = sum(1 for e in events if e[0] == "I")
+    cnt["ffi_L"] = sum(1 for e in events if e[0] == "L")
+    cnt["ffi_R"] = sum(1 for e in events if e[0] == "R")
+    exp = info["expect"]
+    out_lines = res.out.split("\n")
+    if not out_lines or START not in out_lines[0]:
+        problems.append((cls, "start_marker_missing", "stdout %r" % res.out[:200]))
+    cnt["stops_checked"] = 1
+    if exp[0] in ("raise", "fault"):
+        if res.cls == "ok":
+            problems.append((cls, "failure_not_reported", "a %s in tail position: the program ended with exit status 0 and no "
+                             "report (stdout %r)" % ("raised error" if exp[0] == "raise" else exp[1], res.out[:200])))
+        elif core.BANNER not in res.err:
+            problems.append((cls, "no_error_report", "exit %s without the interpreter's report: %r" % (res.rc, res.err[-300:])))
+        elif exp[0] == "raise" and exp[1] not in res.err:
+            problems.append((cls, "message_lost", "the report does not carry the foreign message %r: %r" % (exp[1], res.err[-400:])))
+    else:
+        if res.cls != "ok":
+            problems.append((cls, "unexpected_failure", "return form %s in tail position failed: %r" % (exp[0], res.err[-300:])))
+    return problems, cnt
+
+
+def tail_catalogue():
+    cases = []
+    vec = [("str", "tail"), ("int", 7)]
+    for chain in (1, 2, 4):
+        for func, lib in (("raise", "probe"), ("raise", "b/plugin"), ("echo_first", "probe"), ("no_value", "probe"),
+                          ("const_str", "c/plugin"), ("echo_first", "missing"), ("no_such_symbol", "probe"),
+                          ("only_in_a", "b/plugin"), ("echo_first", "notalib")):
+            live = {"probe": "A", "b/plugin": "B", "c/plugin": "C"}.get(lib)
+            form = ((func if has_symbol(func, live) else "missing_symbol") if live else
+                    {"missing": "missing_library", "notalib": "not_a_library"}[lib.split("/")[0]])
+            cases.append({"id": "tail:c%d:%s@%s" % (chain, func, lib), "class": "tail_position/%s" % form, "last_func": func,
+                          "tail": {"chain": chain, "push": vec if chain % 2 else vec[:1], "func": func, "lib": lib}})
+    return cases
+
+
 def deep_catalogue():
     cases = []
     vec = [("str", "raised at the bottom"), ("int", 0), ("float", 2.5)]
@@ -811,6 +882,8 @@ def run_case(item):
     case, lib, vg = item
     if "deep" in case:
         prog, plan = build_deep(case, lib)
+    elif "tail" in case:
+        prog, plan = build_tail(case, lib)
     else:
         prog, plan = build_program(case, lib)
     d = core.case_dir("c19")
@@ -849,6 +922,9 @@ def run_case(item):
             return {"id": case["id"], "inconclusive": "H-TRACE log missing for %s (%s)" % (case["id"], res.cls)}
         if "deep" in case:
             problems, cnt = decide_deep(case, plan, res, trace_text, probe_text)
+            nargs = [len(plan["stack"])]
+        elif "tail" in case:
+            problems, cnt = decide_tail(case, plan, res, trace_text, probe_text)
             nargs = [len(plan["stack"])]
         else:
             problems, cnt = decide(case, plan, res, trace_text, probe_text, lib)
@@ -1030,7 +1106,7 @@ def run(ctx):
     lib = libs["A"]
     LAYOUT.clear()
     LAYOUT.update(ffi.install_layout(libs))
-    multi, deepc = multi_catalogue(), deep_catalogue()
+    multi, deepc = multi_catalogue(), deep_catalogue() + tail_catalogue()
     cat = catalogue() + multi + deepc
     rnd = random_cases(ctx, ctx.n(1500, 8000)) + random_multi(ctx, ctx.n(300, 2500))
     items = [(c, lib, False) for c in cat + rnd]
@@ -1066,8 +1142,8 @@ def run(ctx):
         for s in case.get("segments", []):
             for pos, (k, _) in enumerate(s["push"]):
                 kinds_at["%d:%s" % (pos, k)] = kinds_at.get("%d:%s" % (pos, k), 0) + 1
-        if any(res["nargs"]) or case["class"].startswith("fault") or "deep" in case:
-            out.distinct.add(core.h([case.get("segments") or case["deep"], vg]))
+        if any(res["nargs"]) or case["class"].startswith("fault") or "deep" in case or "tail" in case:
+            out.distinct.add(core.h([case.get("segments") or case.get("deep") or case["tail"], vg]))
         if "witness" in res and not res["problems"] and len(out.samples) < 3:
             w = res["witness"]
             out.samples.append({"id": case["id"], "program": w["program_readable"], "stdout": w["run"]["out"],
@@ -1092,7 +1168,8 @@ def run(ctx):
         "catalogue_cases": len(cat), "seeded_cases": len(rnd),
         "multi_library_cases": len(multi), "library_layout": {k: [os.path.relpath(p, core.WORK) if os.path.isabs(p) else p + " (bare name, LD_LIBRARY_PATH)", v] for k, (p, v) in LAYOUT.items()},
         "calls_at_depth_cases": len(deepc),
-        "call_depths(activations+extra scopes)": sorted({"%d+%d" % (c["deep"]["depth"], c["deep"]["extra"]) for c in deepc}),
+        "call_depths(activations+extra scopes)": sorted({"%d+%d" % (c["deep"]["depth"], c["deep"]["extra"]) for c in deepc if "deep" in c}),
+        "tail_position_cases(call_lib directly followed by ret, tail calls up to the root)": len([c for c in deepc if "tail" in c]),
         "valgrind_runs": vg_runs, "valgrind_runs_by_class": vg_by_class, "valgrind_available": have_vg,
         "probe_library": lib,
     })
@@ -1144,6 +1221,8 @@ def replay(path):
         s["push"] = [tuple(v) for v in s["push"]]
     if "deep" in c:
         c["deep"]["push"] = [tuple(v) for v in c["deep"]["push"]]
+    if "tail" in c:
+        c["tail"]["push"] = [tuple(v) for v in c["tail"]["push"]]
     libs = ffi.build_variants(quiet=True)
     lib = libs["A"]
     LAYOUT.clear()
